@@ -14,7 +14,8 @@ import (
 
 // Item is one step of a case.
 type Item struct {
-	Kind string `json:"kind"` // line | tick | pause | login | cancel
+	Kind string `json:"kind"`           // line | tick | pause | login | cancel | sync (buffered channel: wait until the queued lines have been processed)
+	Hold bool   `json:"hold,omitempty"` // buffered channel: keep the callback of this line's event waiting until the rest of the batch is queued
 	Text string `json:"text,omitempty"`
 	// generator's knowledge about a line (the oracle uses only this, never the parser)
 	Empty bool   `json:"empty,omitempty"`
@@ -39,10 +40,11 @@ type Case struct {
 	TimeoutMs int    `json:"timeout_ms,omitempty"`
 	PauseMs   int    `json:"pause_ms,omitempty"`
 	FailAt    []int  `json:"fail_at,omitempty"`
-	AfterSec  int64  `json:"after_sec,omitempty"`     // level 1: the After filter (0 = zero time)
-	Debug     bool   `json:"debug_logging,omitempty"` // audit processor (and its correlator) log at DEBUG level
-	Transient bool   `json:"transient,omitempty"`     // level 2: only the write after Budget successful ones fails, later writes succeed again
-	Budget    int    `json:"budget"`                  // level 2: successful writes before failing (-1 = never fails)
+	AfterSec  int64  `json:"after_sec,omitempty"`               // level 1: the After filter (0 = zero time)
+	Debug     bool   `json:"debug_logging,omitempty"`           // audit processor (and its correlator) log at DEBUG level
+	Transient bool   `json:"transient,omitempty"`               // level 2: only the write after Budget successful ones fails, later writes succeed again
+	Budget    int    `json:"budget"`                            // level 2: successful writes before failing (-1 = never fails)
+	Buf       int    `json:"audits_channel_capacity,omitempty"` // > 0: the lines go through a buffered channel in batches (backlog.go)
 	Items     []Item `json:"items"`
 	// preconditions of the grouping oracle, as known to the generator
 	LateRecord bool `json:"late_record,omitempty"` // a record follows its event's terminator
@@ -234,6 +236,35 @@ func sprinkleEmpty(r *hutil.Rand, items []Item) []Item {
 	return items
 }
 
+// padSomeLine makes one record of the stream long: a quoted path value is padded so that the record's length falls
+// near one of the sizes at which buffers end (audit's own 8970-byte message limit and its 255-byte margin, bufio's
+// 4096, 16 KiB, a pipe's 64 KiB) or anywhere below 20000 bytes.  A long record is a record like any other.
+func padSomeLine(r *hutil.Rand, items []Item) {
+	var cand []int
+	for i, it := range items {
+		if it.Kind == "line" && !it.Empty && it.Bad == "" && (it.Typ == "PATH" || it.Typ == "CWD" || it.Typ == "USER_CMD") && strings.Contains(it.Text, "=\"/") {
+			cand = append(cand, i)
+		}
+	}
+	if len(cand) == 0 {
+		return
+	}
+	i := hutil.Pick(r, cand)
+	target := hutil.Pick(r, []int{4096, 8192, 8970, 9225, 9226, 16384, 65536}) + r.Intn(9) - 4
+	if r.Chance(1, 3) {
+		target = 300 + r.Intn(20000)
+	}
+	n := target - len(items[i].Text)
+	if n <= 0 {
+		return
+	}
+	pad := make([]byte, n)
+	for k := range pad {
+		pad[k] = "abcdefghijklmnopqrstuvwxyz0123456789-_."[(k*7+n)%39]
+	}
+	items[i].Text = strings.Replace(items[i].Text, "=\"/", "=\"/"+string(pad)+"/", 1)
+}
+
 // ---------- level 1 ----------
 
 var l1Modes = []string{"clean", "badline", "badline", "faults", "faults", "after", "smallmax", "smallmax", "unterminated", "late", "expiry", "gaps"}
@@ -314,6 +345,9 @@ func genL1(r *hutil.Rand, i int) Case {
 		e := g.newEv("499", 0)
 		items = insertAt(items, r.Intn(len(items)+1), malformed(r, e))
 	}
+	if r.Chance(1, 5) {
+		padSomeLine(r, items)
+	}
 	if mode == "faults" {
 		nf := 1 + r.Intn(3)
 		for k := 0; k < nf; k++ {
@@ -328,8 +362,9 @@ func genL1(r *hutil.Rand, i int) Case {
 
 var l2Modes = []string{"clean", "badline", "writefail", "writefail", "badlogin", "badpid", "latelogin-writefail", "badline", "writefail-once"}
 
-func genL2(r *hutil.Rand, i int) Case {
-	mode := l2Modes[i%len(l2Modes)]
+func genL2(r *hutil.Rand, i int) Case { return genL2Mode(r, l2Modes[i%len(l2Modes)]) }
+
+func genL2Mode(r *hutil.Rand, mode string) Case {
 	c := Case{Level: 2, Mode: mode, Budget: -1}
 	g := &genState{r: r, seq: uint32(30000 + r.Intn(100000)), pid: 2000 + r.Intn(20000)}
 	sshdPid := 25000 + r.Intn(1000)
@@ -420,6 +455,9 @@ func genL2(r *hutil.Rand, i int) Case {
 		}
 	case "badlogin":
 		items = insertAt(items, r.Intn(len(items)+1), mkLogin(70000+r.Intn(100), hutil.Pick(r, []string{"zeropid", "nocred", "nosource"})))
+	}
+	if r.Chance(1, 5) {
+		padSomeLine(r, items)
 	}
 	// empty lines (never between a login and its barrier login)
 	n := r.Intn(3)
